@@ -15,6 +15,21 @@ From Coq Require Import String Bool Arith ZArith Sorted List.
 From GM Require Import Base.Res Model.Restraints.
 From GM Require Import Proofs.RestraintsFilter Proofs.RestraintsSplit Proofs.RestraintsRouting.
 Import ListNotations.
+From GM Require Import Gen.IntKernelsGen Proofs.IntKernelsGenEq.
+
+(* The tie by translation: _split_list and guess_residue_restrains as generated at this run from the CURRENT
+   source text of gaddlemaps/_alignment.py (Gen/IntKernelsGen.v, harness/pytrans_int.py) are the model's
+   definitions (residues enter only through their lengths, as in the source). *)
+Theorem C10_model_is_source_split : forall (l : list nat) (parts : nat),
+  split_list_gen l parts = split_list l parts.
+Proof. exact split_list_gen_eq. Qed.
+Print Assumptions C10_model_is_source_split.
+
+Theorem C10_model_is_source_residue_guess : forall n1 n2 o1 o2 : nat,
+  guess_residue_restrains_gen n1 n2 o1 o2 = guess_residue_restrains n1 n2 o1 o2.
+Proof. exact guess_residue_restrains_gen_eq. Qed.
+Print Assumptions C10_model_is_source_residue_guess.
+
 
 (* ---- the restraints that reach the optimiser designate the intended atoms, in both role
    assignments, hydrogens filtered or not; a pair is dropped iff filtering is on and its fixed-side
